@@ -176,7 +176,7 @@ func (e *Engine) step(fr *Frame, st *State, instr ssa.Instruction) {
 		e.recStore(st, ln, r)
 		e.setHeap(st, hn, tStore(hh, r, T{fmt.Sprintf("((as const %s) false)", arraySort(ks, sBool)), arraySort(ks, sBool)}))
 		vh := e.heap(st, vn, arraySort(sRef, arraySort(ks, vs)))
-		e.setHeap(st, vn, tStore(vh, r, T{fmt.Sprintf("((as const %s) %s)", arraySort(ks, vs), e.zero(mt.Elem()).S), arraySort(ks, vs)}))
+		e.setHeap(st, vn, tStore(vh, r, e.constArray(arraySort(ks, vs), e.zero(mt.Elem()))))
 		lh := e.heap(st, ln, arraySort(sRef, sInt))
 		e.setHeap(st, ln, tStore(lh, r, tInt(0)))
 		fr.vals[x] = r
@@ -278,7 +278,7 @@ func (e *Engine) zeroElems(st *State, r T, et types.Type) {
 	h := e.heap(st, hn, hs)
 	inner := arraySort(sInt, e.sortOf(et))
 	e.recStore(st, hn, r)
-	e.setHeap(st, hn, tStore(h, r, T{fmt.Sprintf("((as const %s) %s)", inner, e.zero(et).S), inner}))
+	e.setHeap(st, hn, tStore(h, r, e.constArray(inner, e.zero(et))))
 }
 
 func (e *Engine) mapHeaps(mt *types.Map) (has, val, ln string) {
